@@ -603,9 +603,12 @@ def map_order_case(rng):
     present = rng.sample(["a", "b", "c", "d"], rng.randint(1, 4))
     vals = {k: rng.randint(0, 9) for k in present}
     items = []
+    allwild = rng.random() < 0.25          # an open map that only asks for the presence of keys
     for k in present:
         r = rng.random()
-        if r < 0.45:
+        if allwild:
+            items.append('"%s": _' % k)
+        elif r < 0.45:
             items.append('"%s": %d' % (k, vals[k] + rng.randint(1, 3)))          # fails
         elif r < 0.6:
             items.append('"%s": > %d' % (k, vals[k] + 5))                        # fails
@@ -614,8 +617,8 @@ def map_order_case(rng):
         else:
             items.append('"%s": _' % k)
     for k in rng.sample(["x", "y", "z"], rng.randint(1, 2)):
-        items.insert(rng.randint(1, len(items)) if rng.random() < 0.3 else len(items), '"%s": %s' % (k, rng.choice(["_", "1", "> 0"])))
-    rest = rng.random() < 0.6
+        items.insert(rng.randint(1, len(items)) if rng.random() < 0.3 else len(items), '"%s": %s' % (k, "_" if allwild else rng.choice(["_", "1", "> 0"])))
+    rest = allwild or rng.random() < 0.6
     pat = "#{ %s }" % ", ".join(items + ([".."] if rest else []))
     vr = "[%s].into_iter().collect::<HashMap<String, i32>>()" % ", ".join('("%s".to_string(), %d)' % (k, vals[k]) for k in present)
     vm = "(map %s)" % " ".join('((str %s) (int %d))' % (hx(k), vals[k]) for k in present) if present else "(map)"
@@ -625,7 +628,11 @@ def map_order_case(rng):
         pat, vr, vm, ty = "(%s, %d)" % (pat, 7 if rng.random() < 0.5 else 8), "(%s, 7)" % vr, "(tuple %s (int 7))" % vm, "(HashMap<String, i32>, i32)"
     elif wrap < 0.55:
         pat, vr, vm, ty = "Some(%s)" % pat, "Some(%s)" % vr, "(variant %s %s)" % (hx("Some"), vm), "Option<HashMap<String, i32>>"
-    return {"type": ty, "value_rust": vr, "value_model": vm, "pattern": pat, "kinds": {"map-order": 1}, "multiline": True}
+    elif wrap < 0.7:
+        pat, vr, vm, ty = "[%s, ..]" % pat, "vec![%s]" % vr, "(vec %s)" % vm, "Vec<HashMap<String, i32>>"
+    elif wrap < 0.8:
+        pat, vr, vm, ty = "(0: %s, 1: _)" % pat, "(%s, 7)" % vr, "(tuple %s (int 7))" % vm, "(HashMap<String, i32>, i32)"
+    return {"type": ty, "value_rust": vr, "value_model": vm, "pattern": pat, "kinds": {"map-order": 1, "map-order:all-wild": 1 if allwild else 0}, "multiline": True}
 
 
 def float_case(rng):
